@@ -12,7 +12,9 @@
 
    Coverage of e2e_fidelity: universally quantified over
      - the configuration c with wf_cfg c: checksums on / off (any 4 checksum bytes), rows events v1 / v2, 4- / 6-byte
-       table ids, any common-header length 19..255, any post-header-length table size 35..255;
+       table ids, any common-header length 19..255, any post-header-length table size 35..255, any padding patterns
+       in the unused high bits of the last byte of the presence bitmaps, of the rows' NULL bitmaps and of the table
+       maps' nullable-columns bitmaps (three arbitrary bytes c_pad_cols / c_pad_null / c_pad_tm);
      - the oracles ffmt (float formatting), tz (|tz| <= 86400), jsonp (never consulted: no JSON values), and the
        table mapper mp (any names and signedness; it must know each table and agree on the column count);
      - GTID / anonymous GTID / previous-GTIDs / heartbeat / any other ignorable event type, statements of unknown
@@ -249,8 +251,8 @@ Qed.
 (* table map: the cache entry for the id is (re)placed with the mapper's table *)
 Lemma decode_map f tb h t crc :
   fmt_ok f -> cache_ok tb -> wf_whdr h -> fits c (WTableMap h t crc) -> wf_table c mp t ->
-  decode f tb (wire c (WTableMap h t crc)) = ATable (td_id t) (expect_table_map t) (tinfo_of mp t) /\
-  cache_ok (update_table (td_id t) (expect_table_map t, tinfo_of mp t) tb).
+  decode f tb (wire c (WTableMap h t crc)) = ATable (td_id t) (expect_table_map (c_pad_tm c) t) (tinfo_of mp t) /\
+  cache_ok (update_table (td_id t) (expect_table_map (c_pad_tm c) t, tinfo_of mp t) tb).
 Proof.
   intros [v ->] Hc Wh Hf (Wt & ti & Hmp & Hl).
   assert (Hti : tinfo_of mp t = ti) by (unfold tinfo_of; rewrite Hmp; reflexivity). rewrite Hti.
@@ -262,12 +264,12 @@ Qed.
 (* rows event for a table whose map is cached *)
 Lemma decode_rows f tb h t r crc :
   fmt_ok f -> wf_table c mp t -> wf_rows c mp t h r crc ->
-  lookup_table (td_id t) tb = Some (expect_table_map t, tinfo_of mp t) ->
+  lookup_table (td_id t) tb = Some (expect_table_map (c_pad_tm c) t, tinfo_of mp t) ->
   decode f tb (wire c (WRows h (map fst (td_cols t)) r crc)) = stmt_event (rows_stmt ffmt tz mp t h r).
 Proof.
   intros [v ->] (Wt & ti & Hmp & Hl) (Wh & Hf & Hid & Wr) Hlk.
   assert (Hti : tinfo_of mp t = ti) by (unfold tinfo_of; rewrite Hmp; reflexivity). rewrite Hti in *.
-  apply (decode_wrows ffmt tz jsonp mp c v tb Wc tz_bounded h t ti r crc); assumption.
+  apply (decode_wrows ffmt tz jsonp mp c v tb Wc tz_bounded h (c_pad_tm c) t ti r crc); assumption.
 Qed.
 
 Lemma useg_stmt s : wf_stmt c mp s -> forall f tb, fmt_ok f -> cache_ok tb ->
@@ -275,12 +277,12 @@ Lemma useg_stmt s : wf_stmt c mp s -> forall f tb, fmt_ok f -> cache_ok tb ->
 Proof.
   destruct s as [hm t crcm gap hr r crcr | q]; cbn [wf_stmt stmt_events Binlog.abs_stmt].
   - intros (Whm & Fm & Wt & Wg & Wr) f tb F Hc.
-    set (tb1 := update_table (td_id t) (expect_table_map t, tinfo_of mp t) tb).
+    set (tb1 := update_table (td_id t) (expect_table_map (c_pad_tm c) t, tinfo_of mp t) tb).
     destruct (decode_map f tb hm t crcm F Hc Whm Fm Wt) as [Dm Hc1]. fold tb1 in Hc1.
     apply (useg_of_seg _ f tb _ _ tb1); [|exact Hc1].
     change [stmt_event (rows_stmt ffmt tz mp t hr r)] with ([] ++ [] ++ [stmt_event (rows_stmt ffmt tz mp t hr r)]).
     apply (seg_cons f tb _ [] tb1).
-    { apply (seg_one _ tb _ (ATable (td_id t) (expect_table_map t) (tinfo_of mp t))); [exact F|exact Dm|reflexivity|reflexivity]. }
+    { apply (seg_one _ tb _ (ATable (td_id t) (expect_table_map (c_pad_tm c) t) (tinfo_of mp t))); [exact F|exact Dm|reflexivity|reflexivity]. }
     intros f1 F1. apply (seg_app f1 tb1 gap [] tb1).
     { apply seg_gap; assumption. }
     intros f2 F2.
@@ -294,11 +296,11 @@ Qed.
 (* inside a transaction: every announced table is cached with its own map and the mapper's table *)
 Definition known_ok (known : list table_def) (tb : tables_t) : Prop :=
   forall t, In t known ->
-    wf_table c mp t /\ lookup_table (td_id t) tb = Some (expect_table_map t, tinfo_of mp t).
+    wf_table c mp t /\ lookup_table (td_id t) tb = Some (expect_table_map (c_pad_tm c) t, tinfo_of mp t).
 
 Lemma known_ok_announce known tb t :
   known_ok known tb -> wf_table c mp t ->
-  known_ok (announce t known) (update_table (td_id t) (expect_table_map t, tinfo_of mp t) tb).
+  known_ok (announce t known) (update_table (td_id t) (expect_table_map (c_pad_tm c) t, tinfo_of mp t) tb).
 Proof.
   intros K Wt u [<-|Hu].
   - split; [exact Wt|apply lookup_update_same].
@@ -322,7 +324,7 @@ Proof.
   2:{ intros f2 tb2 F2 [Hc2 K2]. apply (IH _ Wr); assumption. }
   destruct it as [h t crc | h t r crc | q]; cbn [wf_item item_event Binlog.item_stmts known_after map] in *.
   - destruct Wi as (Wh & Hf & Wt). destruct (decode_map f1 tb h t crc F1 Hc Wh Hf Wt) as [Dm Hc1].
-    apply (useg_one _ _ tb _ (ATable (td_id t) (expect_table_map t) (tinfo_of mp t))); try reflexivity; [exact F1|exact Dm|].
+    apply (useg_one _ _ tb _ (ATable (td_id t) (expect_table_map (c_pad_tm c) t) (tinfo_of mp t))); try reflexivity; [exact F1|exact Dm|].
     cbn [tables_after]. split; [exact Hc1|apply known_ok_announce; assumption].
   - destruct Wi as (Hin & Wr'). destruct (K t Hin) as [Wt Lt].
     apply (useg_one _ _ tb _ (stmt_event (rows_stmt ffmt tz mp t h r))); try reflexivity; [exact F1| |split; assumption].
